@@ -32,7 +32,7 @@ FUNCTIONS = ["SymbolTable.lookup_symbol_in / lookup_nearest_symbol_from / get_ne
              "SymbolTableCollection.lookup_symbol_in / lookup_nearest_symbol_from / get_symbol_table; SymbolTable.__init__ / lookup", "traits.SymbolTable.lookup_symbol"]
 ASSUMPTIONS = ["modules are verified: names within one symbol table are pairwise different (assumed as a constraint; the trait's verifier hashes the names)",
                "reference: nearest enclosing table of the starting op; component k+1 is resolved among the direct children of the op found for component k, which must be a symbol table; a private symbol reached through nesting is refused"]
-OUTSIDE = ["names longer than one cell (equality patterns do not depend on length)", "nesting deeper than two tables below the top module", "symbol tables other than builtin.module; symbols other than func.func and builtin.module"]
+OUTSIDE = ["names longer than one cell (equality patterns of non-empty names do not depend on length; the empty name is covered by its own family)", "two or more symbols named by the empty string in one module", "nesting deeper than two tables below the top module", "symbol tables other than builtin.module; symbols other than func.func and builtin.module"]
 STUBS = ["the per-table name dictionary of SymbolTable (`{}`) is a list-backed dictionary (keys compared with ==)"]
 
 VIS = [None, "public", "private", "nested"]
@@ -50,9 +50,14 @@ class Src:
         self.ex.named[name] = v
         return v
 
-    def name(self, tag):
+    def name(self, tag, may_be_empty=False):
+        """a one-cell symbolic name; with may_be_empty the empty string (a legal symbol name: `func.func @""` verifies) is a further case"""
         if self.c is not None:
+            if may_be_empty and int(self.c.get(f"{tag}__empty", 0)):
+                return ""
             return chr(self.c.get(f"{tag}0", 97))
+        if may_be_empty and self.choose(f"{tag}__empty", 2):
+            return ""
         return SymStr.var_split(tag, 1, NAME_CELLS)
 
 
@@ -72,10 +77,16 @@ def mod(name, vis, ops):
     return m
 
 
-def build(src):
+EMPTY_CANDIDATES = ("f1", "m1", "f2", "m2", "f3", "f4")
+
+
+def build(src, empties=False):
     """returns (top module, dict of interesting ops, list of (table, [symbols]) for the distinctness assumption)"""
-    n = {k: src.name(k) for k in ("f1", "m1", "f2", "m2", "f3", "f4")}
-    vis = {k: VIS[src.choose("vis_" + k, 4)] for k in ("m1", "f2", "m2", "f3")}
+    # empties: at most ONE symbol of the module is named by the empty string (which one is a fork); the others are one-cell names
+    which = src.choose("empty_symbol", len(EMPTY_CANDIDATES) + 1) if empties else 0
+    n = {k: ("" if empties and which == i + 1 else src.name(k)) for i, k in enumerate(EMPTY_CANDIDATES)}
+    # the empty-names family enumerates absent/private only (the four-way enumeration is the plain family's)
+    vis = {k: ([None, "private"][src.choose("vis_" + k, 2)] if empties else VIS[src.choose("vis_" + k, 4)]) for k in ("m1", "f2", "m2", "f3")}
     inner_plain = test.TestOp()
     f3 = fn(n["f3"], vis["f3"], [test.TestOp()])
     m2 = mod(n["m2"], vis["m2"], [f3, inner_plain])
@@ -138,7 +149,7 @@ def harness(ob, concrete=None):
     def h(ex):
         symstr.SYM_DICT[0] = True
         src = Src(ex, concrete)
-        top, starts, tables = build(src)
+        top, starts, tables = build(src, empties=bool(ob.get("empties")))
         if concrete is None:
             for _, syms in tables:
                 for i in range(len(syms)):
@@ -155,7 +166,7 @@ def harness(ob, concrete=None):
                 names = [sym_name(s_) for s_ in syms]
                 if len(set(names)) != len(names):
                     return True
-        comps = [src.name(f"r{k}") for k in range(ob["ncomp"])]
+        comps = [src.name(f"r{k}", may_be_empty=bool(ob.get("empties"))) for k in range(ob["ncomp"])]
         ref = SymbolRefAttr(StringAttr(comps[0]), ArrayAttr([StringAttr(c) for c in comps[1:]]))
         start = starts[ob["start"]]
         want = reference(start, comps)
@@ -190,7 +201,7 @@ def harness(ob, concrete=None):
 
 
 def bounds(tier):
-    return {"symbols": "6 named symbols in 4 tables (top module, named module, module nested in it, unnamed module)", "names": "1 symbolic cell each over {a,b,c} (all equality patterns)", "visibilities": "absent/public/private/nested, enumerated",
+    return {"symbols": "6 named symbols in 4 tables (top module, named module, module nested in it, unnamed module)", "names": "1 symbolic cell each over {a,b,c} (all equality patterns); in the empty-names family additionally one symbol of the module (any) and any subset of the reference components are the empty string", "visibilities": "absent/public/private/nested, enumerated (absent/private in the empty-names family)",
             "reference_components": "1-3", "start_operations": 8, "shared_collection_sequences": "8 ordered pairs of starting operations served by one SymbolTableCollection", "implementations": ["SymbolTable (direct)", "SymbolTableCollection (cached)", "traits.SymbolTable.lookup_symbol"]}
 
 
@@ -202,6 +213,11 @@ def obligations(tier):
                 obs.append({"id": f"C29/{impl}/{start}/{nc}", "impl": impl, "start": start, "ncomp": nc, "weight": 2 * nc})
             if impl != "trait":
                 obs.append({"id": f"C29/{impl}/{start}/1ref", "impl": impl, "start": start, "ncomp": 1, "as_ref": True, "weight": 2})
+    # the empty string is a legal symbol name: one symbol of the module (any of the six) and any subset of the reference components may be ""
+    for impl in ("direct", "cached", "trait"):
+        for start in (("body_of_f2", "m2_plain", "top_plain", "in_unnamed") if tier == "quick" else ("body_of_f2", "f2", "m1", "m2_plain", "top_plain", "top", "in_unnamed")):
+            for nc in ((1, 2) if tier == "quick" else (1, 2, 3)):
+                obs.append({"id": f"C29/{impl}/{start}/{nc}/empty-names", "impl": impl, "start": start, "ncomp": nc, "empties": True, "as_ref": impl != "trait", "weight": 8 * nc})
     for first, start in (("top_plain", "m1"), ("m1", "top_plain"), ("f2", "m2"), ("m2", "f2"), ("body_of_f2", "f2"), ("m2_plain", "m2"), ("m2", "m2_plain"), ("m1", "body_of_f2")):
         for nc in (1, 2):
             obs.append({"id": f"C29/cached_seq/{first}-{start}/{nc}", "impl": "cached_seq", "first": first, "start": start, "ncomp": nc, "weight": 3 * nc})
